@@ -22,6 +22,7 @@ EXPLANATION += ' Added after the seeded-change rounds: ' + 'D4: after internal_i
 EXPLANATION += ' Added in the third session (round-3 seeds and the findings they led to): ' + 'D5: every value written to the bucket count is a power of two by construction (one-bit abstract domain; doublings only where the doubled value is bounded from above).'
 EXPLANATION += ' Added in the fourth round of seeded changes: ' + 'D6: functor take-over - in a function that replaces my_compare no element is linked before the replacement; every function that copies nodes together with their order keys has taken my_hash_compare from the same source on every path (helpers pass the obligation to their callers; constructors and assignment operators never do).'
 EXPLANATION += ' Added later in the fourth round: ' + 'D7: empty() of a container range type means begin() == end() (the value returned compares the two members that begin() and end() hand out).'
+EXPLANATION += ' Added in the fifth round: ' + 'D8: path-sensitive size accounting of the unordered containers - after a node was taken out with unlink_node the size drops by exactly one on every path to the end of the operation unless the node is linked back (size changes inside unlink_node included).'
 ASSUMPTIONS = ['instantiations: unordered/ordered map, multimap, set, multiset over int (explicit instantiation)']
 ND = ['traversal completeness under concurrent inserts', 'comparator order of iteration', 'linearizability']
 UB = None
